@@ -22,8 +22,8 @@ pub fn def() -> PropDef {
     panic_policy: PanicPolicy::Count,
     rule: "random ASCII source trees with consistent leaf maps (as C02); map() for both column settings is checked for charset, decodability by the reference decoder, strictly increasing generated positions before the end of source(), indices inside the tables; all four stream modes are checked for announce-before-use and dense announced indices; non-trivial = a composite tree whose map has >= 2 mapped segments and whose streams announced >= 1 source; distinct = spec fingerprint",
     cases: |t| match t {
-      Tier::Quick => 30_000,
-      Tier::Thorough => 600_000,
+      Tier::Quick => 150_000,
+      Tier::Thorough => 2_000_000,
     },
   }
 }
